@@ -170,6 +170,22 @@ thread_local! {
     static CURRENT_SLOT: std::cell::RefCell<Option<std::sync::Arc<Slot>>> = const { std::cell::RefCell::new(None) };
 }
 
+/// Clears a kill request for the execution on this thread and restarts its wall clock (used to
+/// re-run a case once before non-termination is reported: on a loaded machine a healthy
+/// execution can be descheduled for longer than the limit).
+pub fn rearm() {
+    CURRENT_SLOT.with(|s| {
+        if let Some(sl) = s.borrow().as_ref() {
+            sl.started.store(REARM_CLOCK.with(|c| c.get().map_or(0, |t| t.elapsed().as_millis() as u64)), Ordering::SeqCst);
+            sl.kill.store(false, Ordering::SeqCst);
+        }
+    });
+}
+
+thread_local! {
+    static REARM_CLOCK: std::cell::Cell<Option<Instant>> = const { std::cell::Cell::new(None) };
+}
+
 /// true if the monitor asked the execution running on this thread to stop
 pub fn kill_requested() -> bool {
     CURRENT_SLOT.with(|s| s.borrow().as_ref().map_or(false, |sl| sl.kill.load(Ordering::Relaxed)))
@@ -203,6 +219,7 @@ fn spawn_worker(sh: std::sync::Arc<Shared>, fam: &'static dyn Family, body: &'st
         .stack_size(64 << 20)
         .spawn(move || {
             CURRENT_SLOT.with(|s| *s.borrow_mut() = Some(my.clone()));
+            REARM_CLOCK.with(|c| c.set(Some(sh.t0)));
             loop {
                 let start = sh.next.fetch_add(sh.chunk, Ordering::Relaxed);
                 if start >= sh.n_items {
@@ -275,9 +292,12 @@ pub fn sweep<'a>(fam: &'a (dyn Family + 'a), opts: &SweepOpts, body: &'a (dyn Fn
         spawn_worker(sh.clone(), fam_s, body_s);
     }
     let mut stuck_here = 0usize;
+    // The age of an execution is measured in monitor ticks, not in wall-clock time: if the whole
+    // process (or virtual machine) is paused, the monitor is paused with it and nothing ages.
+    let tick_ms: u64 = if n_items < 5000 { 2 } else { 50 };
+    let mut ages: std::collections::HashMap<usize, (u64, u64, u64)> = std::collections::HashMap::new(); // slot ptr -> (idx, started, age in ms of ticks)
     loop {
-        std::thread::sleep(std::time::Duration::from_millis(if n_items < 5000 { 2 } else { 50 }));
-        let now = sh.t0.elapsed().as_millis() as u64;
+        std::thread::sleep(std::time::Duration::from_millis(tick_ms));
         let slots: Vec<std::sync::Arc<Slot>> = sh.slots.lock().unwrap().clone();
         let mut all_done = true;
         for sl in &slots {
@@ -286,7 +306,17 @@ pub fn sweep<'a>(fam: &'a (dyn Family + 'a), opts: &SweepOpts, body: &'a (dyn Fn
             }
             all_done = false;
             let i = sl.idx.load(Ordering::SeqCst);
-            let st = sl.started.load(Ordering::SeqCst);
+            let started = sl.started.load(Ordering::SeqCst);
+            let key = std::sync::Arc::as_ptr(sl) as usize;
+            let e = ages.entry(key).or_insert((i, started, 0));
+            if e.0 == i && e.1 == started && i != u64::MAX {
+                e.2 += tick_ms;
+            } else {
+                *e = (i, started, 0);
+            }
+            // `st`/`now` keep the arithmetic below unchanged: now - st = age in ticked milliseconds
+            let st = 0u64;
+            let now = e.2;
             if i != u64::MAX && now > st + opts.wall_limit_s * 1000 && sl.idx.load(Ordering::SeqCst) == i {
                 // first ask nicely: a solve that loops through propagate / provider calls returns
                 // as soon as it polls should_cancel_with_value
